@@ -6,15 +6,22 @@ WSGI BaseHandler) is run and three observables are compared with the model: the 
 after opening (`c02-open`), the *parsed* projection the served application receives for `var[idx]`
 (`c02-req`, grids: one request per child, `c02-grid`), and the source positions per axis contained in
 the decoded answer (`c02-chain`, the whole chain incl. hyperslab text and the server's parser).
-DAP4 proxies are tied at the request level (the pydap server does not answer DAP4 constraint
-expressions): the request `BaseProxyDap4.__getitem__` issues is parsed with pydap's own DAP4 `parse_ce`.
+DAP4 proxies are tied twice: at the request level with a mocked GET (the request `BaseProxyDap4.__getitem__`
+issues, parsed with pydap's own DAP4 `parse_ce`), and end to end against the independent reference DAP4 server
+(`oracle/refdap4.py`, wrapped by `props/c02_dap4.py` so that a `dap4.ce` in the DMR request declares the
+constrained shape): `c02-cshape`/`c02-open` after `open_url(url?dap4.ce=/a[a:s:b]…, protocol="dap4")`, `c02-req`
+on the `dap4.ce` the reference server receives (parsed by the reference server's own parser), `c02-chain` on the
+decoded answer.
 
 Oracle (independent of the model): `client[var][idx].data == src[pre][idx]` with integer axes re-expanded
-to length 1, for arrays and grids (maps sliced along the matching axes, `output_grid` on/off); for DAP4
-the requested hyperslab applied to the source with numpy.
+to length 1, for arrays and grids (maps sliced along the matching axes, `output_grid` on/off); the same for DAP4 through the reference
+server (values, shape, item size; int32/float64/uint8/int16, both byte orders, named and anonymous dimensions), and for
+the mocked DAP4 pass the requested hyperslab applied to the source with numpy.
 """
 import itertools
+import random
 import warnings
+import zlib
 from urllib.parse import unquote
 
 import numpy as np
@@ -284,6 +291,9 @@ class Runner:
                             size=int(np.prod(shape)) + 10 * len(shape) + len(repr(idx)))
         stride = any(s > 1 for (_, s, _) in pre)
         kind = "ellipsis" if any(e is Ellipsis for e in t) else "short" if len(t) < len(shape) else "full"
+        if len(reqs) == 1 and any(sl.stop is not None and sl.stop > N for sl, N in zip(reqs[0][1], shape)):
+            # fix_slice normalises an open/over-long stop to N + start: the last index requested is ≥ N
+            ctx.tags["stop-beyond-extent:dap2(last index ≥ N requested; pydap server clips like numpy)"] += 1
         ctx.count(("arr", shape, tuple(pre), repr(idx)), True,
                   tag="%s:array:rank%d:%s:%s" % (where, len(shape), "pre-stride" if stride else "pre" if pre else "nopre", kind),
                   sample=case)
@@ -439,6 +449,204 @@ def dap4_case(ctx, cases, rng, shape, pre, idx, where):
 
 
 # ------------------------------------------------------------------------------------------------
+# DAP4 end to end against the reference DAP4 server
+class RefServerBroken(RuntimeError):
+    """the reference server (not pydap) answered something numpy does not select: infrastructure"""
+
+
+DAP4_DTYPES = ["i4", "f8", "u1", "i2"]
+
+
+class Dap4E2E:
+    def __init__(self, ctx):
+        self.ctx = ctx
+        self.cases = []
+        self.clients = {}
+
+    def client(self, shape, pre, dtype, little, anon):
+        from props import c02_dap4 as D
+        from pydap.client import open_url
+
+        key = (shape, tuple(pre), dtype, little, anon)
+        if key in self.clients:
+            return self.clients[key]
+        if len(self.clients) > 400:
+            self.clients.clear()
+        src = D.make_source(shape, dtype)
+        srv = D.PreRefServer(D.make_spec(shape, dtype), {"/a": src, "/z": np.array([7, 8], dtype="i2")},
+                             little=little, rng=None, anon_dims=anon)
+        q = "?dap4.ce=/a" + pre_text(pre) if pre else ""
+        ds = open_url("http://localhost/ds" + q, application=srv, protocol="dap4")
+        cshape = tuple(src[pre_slices(pre)].shape)
+        self.clients[key] = (srv, ds, src, cshape)
+        self.check_open(srv, ds, shape, pre, cshape, dtype, little, anon)
+        return self.clients[key]
+
+    def check_open(self, srv, ds, shape, pre, cshape, dtype, little, anon):
+        ctx = self.ctx
+        case = {"kind": "dap4-open", "shape": list(shape), "pre": [list(p) for p in pre], "dtype": dtype,
+                "little": little, "anon": anon}
+        pre_s = "(" + " ".join(sl_sexp(s) for s in pre_slices(pre)) + ")"
+        want_q = "dap4.ce=/a" + pre_text(pre) if pre else ""
+        if srv.requests != [("/ds.dmr", want_q)]:
+            ctx.oracle_fail("DAP4 open_url does not pass the URL's constraint on to the DMR request", case,
+                            srv.requests, [["/ds.dmr", want_q]])
+        a = ds["a"]
+        self.cases.append(("c02-cshape (%s) %s" % (" ".join(map(str, shape)), pre_s),
+                           "(" + " ".join(map(str, a.shape)) + ")", dict(case, what="shape")))
+        self.cases.append(("c02-open %s (%s)" % (pre_s, " ".join(map(str, cshape))), stored_sexp(a.data.slice),
+                           dict(case, what="a.slice")))
+        if tuple(a.shape) != cshape or tuple(a.data.shape) != cshape:
+            ctx.oracle_fail("constrained shape reported by the DAP4 client differs from numpy's", case,
+                            [list(a.shape), list(a.data.shape)], list(cshape))
+        if pre and "z" in ds:
+            ctx.oracle_fail("DAP4 dataset opened with a projection lists a variable that was not projected", case,
+                            sorted(ds.keys()), ["a"])
+
+    def case(self, shape, pre, idx, where, dtype="i4", little=True, anon=False, via="var"):
+        from props import c02_dap4 as D
+
+        ctx = self.ctx
+        shape = tuple(shape)
+        rank = len(shape)
+        src0 = D.make_source(shape, dtype)
+        base = src0[pre_slices(pre)]
+        cshape = base.shape
+        if not in_domain(idx, cshape):
+            return
+        exp = base[keep1(idx, cshape)]          # numpy on the source array only
+        key = ("dap4-e2e", shape, tuple(pre), repr(idx), dtype, little, anon, via)
+        if exp.size == 0:
+            ctx.count(key, False, tag=where + ":dap4-e2e:empty-selection(skipped)")
+            return
+        case = {"kind": "dap4-e2e", "shape": list(shape), "pre": [list(p) for p in pre], "index": repr(idx),
+                "dtype": dtype, "little": little, "anon": anon, "via": via}
+        size = int(np.prod(shape)) + 10 * rank + len(repr(idx)) + 5 * len(pre)
+        try:
+            srv, ds, src, _ = self.client(shape, pre, dtype, little, anon)
+        except RefServerBroken:
+            raise
+        except Exception as e:
+            ctx.oracle_fail("DAP4 open_url raised", case, "escaped:%s: %s" % (err_class(e), str(e)[:120]), exp.tolist(),
+                            size=size)
+            return
+        a = ds["a"]
+        # the chunk partition of the answer is a function of the case (replayable)
+        srv.rng = random.Random(zlib.crc32(repr(sorted(case.items())).encode()))
+        mark, bmark, over = len(srv.requests), len(srv.bodies), srv.overshoot
+        try:
+            got = np.asarray(a[idx].data if via == "var" else a.data[idx])
+            impl_pos = pos_sexp(positions(got.astype("i8"), shape)) if got.size else "(shape %r)" % (got.shape,)
+        except Exception as e:
+            got = None
+            impl_pos = "escaped:" + err_class(e)
+        reqs = srv.requests[mark:]
+        t = idx if isinstance(idx, tuple) else (idx,)
+        stored = a.data.slice
+        # what the reference server received, parsed by the reference server's own parser
+        impl_req = "requests:" + repr(reqs)
+        if len(reqs) == 1 and reqs[0][0] == "/ds.dap":
+            try:
+                proj = D.split_ce(reqs[0][1])
+                if len(proj) == 1 and proj[0][0] == "/a":
+                    impl_req = canon_slices(proj[0][1])
+                    # cross-check of the reference server itself with a second decoder
+                    path, query, status, body = srv.bodies[bmark]
+                    want = src[tuple(proj[0][1])]
+                    if status.startswith("200"):
+                        _, vals, crc_ok = D.decode_response(body, dtype, want.size)
+                        if not crc_ok or vals.tolist() != want.reshape(-1).tolist():
+                            raise RefServerBroken("%r: sent %r, numpy selects %r" % (query, vals.tolist(), want.tolist()))
+            except ValueError:
+                pass
+        self.cases.append(("c02-req %s (%s) %s" % (stored_sexp(stored), " ".join(map(str, cshape)), tup_sexp(t)),
+                           impl_req, case))
+        self.cases.append(("c02-chain (%s) (%s) %s" % (" ".join(map(str, shape)),
+                                                       " ".join(sl_sexp(s) for s in pre_slices(pre)), tup_sexp(t)),
+                           impl_pos, case))
+        if got is None:
+            status = srv.bodies[-1][2:] if len(srv.bodies) > bmark else None
+            ctx.oracle_fail("DAP4 remote indexing raised", case, [impl_pos, repr(reqs), repr(status)[:160]], exp.tolist(),
+                            size=size)
+        elif got.shape != exp.shape or got.tolist() != exp.tolist() \
+                or (got.dtype.kind, got.dtype.itemsize) != (exp.dtype.kind, exp.dtype.itemsize):
+            ctx.oracle_fail("DAP4 remote indexing returns other elements than numpy", case,
+                            {"request": repr(reqs), "shape": list(got.shape), "dtype": got.dtype.str[1:], "data": got.tolist()},
+                            {"shape": list(exp.shape), "dtype": exp.dtype.str[1:], "data": exp.tolist()}, size=size)
+        if srv.overshoot > over:
+            ctx.tags["stop-beyond-extent:dap4(last index ≥ N requested; reference server clips like numpy)"] += 1
+        ctx.count(key, True,
+                  tag="%s:dap4-e2e:pre=%s:rank=%d" % (where, "stride" if any(s > 1 for _, s, _ in pre) else
+                                                      "step1" if pre else "none", rank),
+                  sample=case)
+        ctx.tags["dap4-e2e:dtype=%s:%s" % (dtype, "little" if little else "big")] += 1
+
+    def flush(self, what):
+        self.ctx.correspond(what, self.cases)
+        self.cases = []
+
+
+def rand_pre_inside(rng, shape):
+    """pre-constraint of the task's domain: per axis a ≤ b inside the extent, s in 1..3; any number of leading axes"""
+    pre = []
+    for ax in range(rng.randint(1, len(shape))):
+        N = shape[ax]
+        a = rng.randint(0, N - 1)
+        pre.append((a, rng.choice([1, 2, 2, 3]), rng.randint(a, N - 1)))
+    return pre
+
+
+def explore_dap4_e2e(ctx, quick):
+    E = Dap4E2E(ctx)
+    # (a) rank 1, N ≤ 6, every index form, no pre-constraint: exhaustive (int32; the other types on N = 4)
+    for N in range(1, 7):
+        for f in idx_forms(N):
+            E.case((N,), [], f, "scope")
+    for dtype, little, anon in (("f8", False, True), ("u1", True, False), ("i2", False, False)):
+        forms = idx_forms(4)
+        if quick:
+            forms = ctx.rng("e2e/dtype/" + dtype).sample(forms, 80)
+        for f in forms:
+            E.case((4,), [], f, "scope", dtype=dtype, little=little, anon=anon, via="proxy")
+    E.flush("DAP4 end to end (reference server), rank 1 exhaustive")
+    # (b) rank 1, every pre-constraint [a:s:b] inside the extent, s ≤ 3; index forms sampled (quick) / all (thorough)
+    k = 0
+    for N in range(1, 7):
+        for a in range(N):
+            for s in (1, 2, 3):
+                for b in range(a, N):
+                    L = len(range(a, b + 1, s))
+                    forms = idx_forms(L)
+                    if quick:
+                        rng = ctx.rng("e2e/b/%d/%d/%d/%d" % (N, a, s, b))
+                        forms = rng.sample(forms, min(len(forms), 10)) + [slice(None), -1, slice(1, None), slice(None, None, 2),
+                                                                          slice(1, None, 3)]
+                    k += 1
+                    dtype = DAP4_DTYPES[k % 4]
+                    for f in forms:
+                        E.case((N,), [(a, s, b)], f, "scope", dtype=dtype, little=bool(k % 3), anon=bool(k % 2),
+                               via="var" if k % 5 else "proxy")
+        E.flush("DAP4 end to end (reference server), rank 1 with pre-constraint")
+        E.clients.clear()
+    # (c) rank 2-3 sampled
+    rng = ctx.rng("e2e/rank23")
+    for _ in range(ctx.budget(150, 2500)):
+        rank = rng.choice([2, 2, 3, 3, 1])
+        shape = tuple(rng.randint(1, 6) for _ in range(rank))
+        dtype = rng.choice(DAP4_DTYPES)
+        little = rng.random() < 0.5
+        anon = rng.random() < 0.4
+        for pre in ([], rand_pre_inside(rng, shape), rand_pre_inside(rng, shape)):
+            cshape = np.empty(shape)[pre_slices(pre)].shape
+            for _ in range(8):
+                E.case(shape, pre, rand_index(rng, cshape), "sampled", dtype=dtype, little=little, anon=anon,
+                       via="var" if rng.random() < 0.7 else "proxy")
+        if len(E.cases) > 4000:
+            E.flush("DAP4 end to end (reference server), rank 1-3 sampled")
+    E.flush("DAP4 end to end (reference server), rank 1-3 sampled")
+
+
+# ------------------------------------------------------------------------------------------------
 PROJ_TEXTS = ["a", "a[0]", "a[0:1]", "a[0:2:9]", "g.m0[1:2]", "g[0][1].g[2]", "a[1]x", "a]", "a[", "[1]", "a[1][2][3]",
               "a[1:2:3:4]", "a[x]", "s.t[0:1:3]", "a[ 1 ]", "a.b.c", "a[0:1:2][3:4]", "", "a[]", "a[1]]", "a[[1]"]
 
@@ -505,6 +713,8 @@ def explore(ctx, tier, search=False):
         cshape = np.empty(shape)[pre_slices(pre)].shape
         dap4_case(ctx, cases, rng, shape, pre, rand_index(rng, cshape), "sampled")
     ctx.correspond("DAP4 proxy: stored slice and issued request", cases)
+    # (d') DAP4 end to end against the reference DAP4 server, without and with URL pre-constraint
+    explore_dap4_e2e(ctx, quick)
     # (e) server-side projection tokens (name/hyperslab split, error classes)
     from pydap.parsers import parse_projection
 
@@ -531,12 +741,18 @@ def run(ctx):
                 "[-N,N+2], step None/1/2/3) exhaustively without pre-constraint, and for every pre-constraint [a:s:b] "
                 "(s ≤ 3) a seeded sample (quick) / all forms (thorough); rank 1-3 with extents 1..6 sampled: arrays, grids "
                 "with output_grid on/off, Ellipsis, short tuples, pre-constraints with strides; DAP4 proxies at request "
-                "level. A case is non-trivial when its numpy selection is non-empty (others are outside the property and "
+                "level (mocked GET) and end to end against the reference DAP4 server: rank 1 every index form without "
+                "pre-constraint (int32; float64/uint8/int16 on N = 4), every pre-constraint [a:s:b] inside the extent "
+                "(s ≤ 3) with sampled (quick) / all (thorough) forms, rank 1-3 sampled with leading-axis pre-constraints, "
+                "dtypes, both byte orders, named/anonymous dimensions. A case is non-trivial when its numpy selection is non-empty (others are outside the property and "
                 "skipped); distinct by (kind, shape, pre-constraint, index)")
     ctx.assumptions = ["numpy basic indexing is the oracle and the specification function (`sel`, `npSlices`: one "
                        "selection per axis)",
-                       "DAP4: no DAP4 server is exercised; the issued request is parsed with pydap's DAP4 parse_ce and "
-                       "applied to the source with numpy"]
+                       "DAP4: pydap has no DAP4 server; the server is the independent reference harness/oracle/refdap4.py "
+                       "(numpy slicing, clips a last index beyond the extent like numpy) wrapped by props/c02_dap4.py so that "
+                       "a dap4.ce in the DMR request declares the constrained shape (shared Dimensions resized, or anonymous "
+                       "Dim sizes); every answer it sends is re-read by a second decoder and compared with numpy on the "
+                       "received hyperslab before pydap's result is judged"]
     ctx.proof_phase()
     explore(ctx, ctx.tier)
     return ctx.finish(search=lambda c: explore(c, "thorough", search=True))
@@ -560,6 +776,11 @@ def replay(payload):
         Runner(ctx).array_case(shape, pre, eval(c["index"], g), "replay")
     elif c["kind"] == "grid":
         Runner(ctx).grid_case(shape, pre, eval(c["index"], g), c["output_grid"], "replay")
+    elif c["kind"] == "dap4-open":
+        Dap4E2E(ctx).client(shape, pre, c["dtype"], c["little"], c["anon"])
+    elif c["kind"] == "dap4-e2e":
+        Dap4E2E(ctx).case(shape, pre, eval(c["index"], g), "replay", dtype=c["dtype"], little=c["little"],
+                          anon=c["anon"], via=c["via"])
     else:
         dap4_case(ctx, [], None, shape, pre, eval(c["index"], g), "replay")
     for fl in ctx.oracle_failures:
